@@ -58,7 +58,8 @@ Record facts := {
   f_direct_ro : bool;             (* geth fork StaticCall / DelegateCall / CallCode run precompiles with readOnly = true *)
   f_call_inherits_static : bool;  (* geth fork EVM.Call hands the interpreter's read-only flag to precompiles *)
   f_snap_each_call : bool;        (* StateDB.SavePrecompileCalledJournalChange appends the multistore snapshot to the journal on EVERY call *)
-  f_max_calls : Z                 (* maxMultistoreCacheCount: precompile calls one StateDB admits (the count is compared after the increment) *)
+  f_max_calls : Z;                (* maxMultistoreCacheCount: precompile calls one StateDB admits (the count is compared after the increment) *)
+  f_revert_decode_total : bool    (* evm.NewRevertError never slices / indexes the revert data of a called contract beyond its length *)
 }.
 
 Definition f_len_guard (F : facts) := g_len (f_guards F).
@@ -179,6 +180,31 @@ Definition new_coin_panics (denom : list Z) (amt : Z) : bool := negb (valid_deno
 Definition addr_conv_panics (F : facts) (s : list Z) (bech32 : bool) (blen : Z) : bool :=
   negb (f_addr_conv_total F) && (negb (is_hex_address s) && bech32 && (blen <? 20)).
 
+(** What a contract CALLED BY the precompile body answers (the registered ERC20 of a FunToken: balanceOf,
+    transfer, … through keeper.ERC20() / CallContractWithInput).  Anyone can register a token contract, so its
+    answer is as untrusted as the calldata: it reverts with arbitrary revert data, runs out of gas, fails
+    otherwise, or returns data that does not decode ([NBadReturn]).  A well-formed return is no event of its
+    own: the body goes on and answers through its other outcomes. *)
+Inductive nested := NRevert | NOutOfGas | NFail | NBadReturn.
+
+(** selector of Solidity's Panic(uint256) *)
+Definition panic_selector : list Z := [78; 72; 123; 113].
+Fixpoint has_prefix (pre l : list Z) : bool :=
+  match pre, l with
+  | [], _ => true
+  | a :: pre', b :: l' => (a =? b) && has_prefix pre' l'
+  | _ :: _, [] => false
+  end.
+(** evm.NewRevertError decoding the revert data: a decoder that recognises the Panic(uint256) selector and reads
+    the 32-byte code behind it (revertReason[4:36]) without looking at the length panics with Go's slice-bounds
+    error — when the CAPACITY of the slice is below 36 (Go slice semantics, as for input[:4] in requiredGas): the
+    revert data of a call frame is a window of the reverting contract's memory (opRevert: Memory.GetPtr), its
+    capacity reaches to the end of that memory; a shorter payload inside a larger memory is read past its end
+    instead.  [cap] >= length of the data; 0 for empty data. *)
+Definition revert_decode_panics (F : facts) (n : nested) (data : list Z) (cap : Z) : bool :=
+  negb (f_revert_decode_total F) &&
+  match n with NRevert => has_prefix panic_selector data && (cap <? 36) | _ => false end.
+
 Inductive vres := VErr | VPanic | VPass.
 
 (** collections.StringKeyEncoder.Encode panics on a NUL character *)
@@ -280,7 +306,11 @@ Section Run.
       recorded; [BOog] = the meter panicked with sdk.ErrorOutOfGas. *)
   Inductive bres :=
   | BOk (st : St) (used : Z) | BErr (st : St) (used : Z) | BOog (st : St)
-  | BMint (st : St) (supply amt : Z).
+  | BMint (st : St) (supply amt : Z)
+  | BNested (st : St) (used : Z) (n : nested) (data : list Z) (cap : Z).
+  (** [BNested st used n data cap]: the body called a contract (the FunToken's ERC20) that did not answer with a
+      well-formed return: CallContractWithInput turns that into an error of the body — after decoding the revert
+      data with evm.NewRevertError when it reverted. *)
   (** [BMint st supply amt]: the body (sendToBank on an ERC20-born FunToken) is about to call
       bank.MintCoins for [amt] while the denom's supply is [supply]; sdkmath.Int.Add panics when the
       sum needs more than 256 bits.  The rest of the body is [after_mint]. *)
@@ -327,6 +357,12 @@ Section Run.
                                else {| r_out := Err; r_left := charge P g1 u; r_st := st' |}
                | BOog st' => oog P g1 st'
                | BMint st' _ _ => {| r_out := Err; r_left := g1; r_st := st' |}   (* not a shape [after_mint] takes *)
+               | BNested st' u n data cap =>
+                   if revert_decode_panics F n data cap then
+                     (if pf_oog_deferred P && negb (f_oog_only F) then {| r_out := OutOfGas; r_left := g1; r_st := st' |}
+                      else {| r_out := Panic; r_left := g1; r_st := st' |})
+                   else if f_local_meter F && (lim <? u) then oog P g1 st'
+                   else {| r_out := Err; r_left := charge P g1 u; r_st := st' |}
                end in
              match body (mf_id mf) args st lim with
              | BMint st' supply amt =>
@@ -377,7 +413,7 @@ Section Run.
     end.
 End Run.
 
-Arguments BOk {St}. Arguments BErr {St}. Arguments BOog {St}. Arguments BMint {St}.
+Arguments BOk {St}. Arguments BErr {St}. Arguments BOog {St}. Arguments BMint {St}. Arguments BNested {St}.
 Arguments r_out {St}. Arguments r_left {St}. Arguments r_st {St}.
 
 (* ------------------------------------------------------------------ variants of a facts record *)
@@ -386,7 +422,8 @@ Definition with_guards (F : facts) (g : panic_guards) : facts :=
   {| f_funtoken := f_funtoken F; f_wasm := f_wasm F; f_oracle := f_oracle F; f_guards := g;
      f_local_meter := f_local_meter F; f_oog_only := f_oog_only F; f_addr_conv_total := f_addr_conv_total F; f_direct_ro := f_direct_ro F;
      f_call_inherits_static := f_call_inherits_static F;
-     f_snap_each_call := f_snap_each_call F; f_max_calls := f_max_calls F |}.
+     f_snap_each_call := f_snap_each_call F; f_max_calls := f_max_calls F;
+     f_revert_decode_total := f_revert_decode_total F |}.
 
 Definition all_guards : panic_guards :=
   {| g_len := true; g_denom := true; g_amount := true; g_evm_denom := true; g_erc20_nul := true; g_supply := true |}.
@@ -409,12 +446,14 @@ Definition with_oracle_oog (F : facts) (b : bool) : facts :=
      f_guards := f_guards F;
      f_local_meter := f_local_meter F; f_oog_only := f_oog_only F; f_addr_conv_total := f_addr_conv_total F; f_direct_ro := f_direct_ro F;
      f_call_inherits_static := f_call_inherits_static F;
-     f_snap_each_call := f_snap_each_call F; f_max_calls := f_max_calls F |}.
+     f_snap_each_call := f_snap_each_call F; f_max_calls := f_max_calls F;
+     f_revert_decode_total := f_revert_decode_total F |}.
 
 Definition with_call_inherits (F : facts) (b : bool) : facts :=
   {| f_funtoken := f_funtoken F; f_wasm := f_wasm F; f_oracle := f_oracle F; f_guards := f_guards F;
      f_local_meter := f_local_meter F; f_oog_only := f_oog_only F; f_addr_conv_total := f_addr_conv_total F; f_direct_ro := f_direct_ro F;
-     f_call_inherits_static := b; f_snap_each_call := f_snap_each_call F; f_max_calls := f_max_calls F |}.
+     f_call_inherits_static := b; f_snap_each_call := f_snap_each_call F; f_max_calls := f_max_calls F;
+     f_revert_decode_total := f_revert_decode_total F |}.
 
 (** a local gas meter that is not capped by the gas left on the contract (seeded change
     "local gas meter oversized": limit = contract.Gas + requiredGas) *)
@@ -422,13 +461,15 @@ Definition with_local_meter (F : facts) (b : bool) : facts :=
   {| f_funtoken := f_funtoken F; f_wasm := f_wasm F; f_oracle := f_oracle F; f_guards := f_guards F;
      f_local_meter := b; f_oog_only := f_oog_only F; f_addr_conv_total := f_addr_conv_total F; f_direct_ro := f_direct_ro F;
      f_call_inherits_static := f_call_inherits_static F;
-     f_snap_each_call := f_snap_each_call F; f_max_calls := f_max_calls F |}.
+     f_snap_each_call := f_snap_each_call F; f_max_calls := f_max_calls F;
+     f_revert_decode_total := f_revert_decode_total F |}.
 
 Definition with_addr_conv (F : facts) (b : bool) : facts :=
   {| f_funtoken := f_funtoken F; f_wasm := f_wasm F; f_oracle := f_oracle F; f_guards := f_guards F;
      f_local_meter := f_local_meter F; f_oog_only := f_oog_only F; f_addr_conv_total := b;
      f_direct_ro := f_direct_ro F; f_call_inherits_static := f_call_inherits_static F;
-     f_snap_each_call := f_snap_each_call F; f_max_calls := f_max_calls F |}.
+     f_snap_each_call := f_snap_each_call F; f_max_calls := f_max_calls F;
+     f_revert_decode_total := f_revert_decode_total F |}.
 
 (** SavePrecompileCalledJournalChange that keeps the previous snapshot when the latest journal entry already
     is a precompile snapshot (seeded change "precompile snapshot coalesced") *)
@@ -436,7 +477,7 @@ Definition with_snap_each (F : facts) (b : bool) : facts :=
   {| f_funtoken := f_funtoken F; f_wasm := f_wasm F; f_oracle := f_oracle F; f_guards := f_guards F;
      f_local_meter := f_local_meter F; f_oog_only := f_oog_only F; f_addr_conv_total := f_addr_conv_total F;
      f_direct_ro := f_direct_ro F; f_call_inherits_static := f_call_inherits_static F;
-     f_snap_each_call := b; f_max_calls := f_max_calls F |}.
+     f_snap_each_call := b; f_max_calls := f_max_calls F; f_revert_decode_total := f_revert_decode_total F |}.
 
 (* ------------------------------------------------------------------ one transaction: SEQUENCES of calls on one StateDB *)
 
@@ -552,3 +593,11 @@ Arguments JEvm {Ms}. Arguments JPre {Ms}.
 Arguments x_ev {Ev Ms}. Arguments x_ms {Ev Ms}. Arguments x_j {Ev Ms}. Arguments x_cnt {Ev Ms}.
 Arguments xr_out {Ev Ms}. Arguments xr_left {Ev Ms}. Arguments xr_x {Ev Ms}.
 Arguments OEvm {Ev}. Arguments OCall {Ev}.
+
+(** evm.NewRevertError that reads revertReason[4:36] behind the Panic(uint256) selector without a length check
+    (seeded change "revert panic payload short slice") *)
+Definition with_revert_decode (F : facts) (b : bool) : facts :=
+  {| f_funtoken := f_funtoken F; f_wasm := f_wasm F; f_oracle := f_oracle F; f_guards := f_guards F;
+     f_local_meter := f_local_meter F; f_oog_only := f_oog_only F; f_addr_conv_total := f_addr_conv_total F;
+     f_direct_ro := f_direct_ro F; f_call_inherits_static := f_call_inherits_static F;
+     f_snap_each_call := f_snap_each_call F; f_max_calls := f_max_calls F; f_revert_decode_total := b |}.
